@@ -29,6 +29,11 @@ pub enum JoinType {
 
 pub type JoinKeys = SmallVec<[DataValue; 2]>;
 
+/// Returns true if any of the join keys is NULL.
+fn has_null(keys: &JoinKeys) -> bool {
+    keys.iter().any(|key| key.is_null())
+}
+
 impl<const T: JoinType> HashJoinExecutor<T> {
     #[try_stream(boxed, ok = DataChunk, error = ExecutorError)]
     pub async fn execute(self, left: BoxedExecutor, right: BoxedExecutor) {
@@ -59,7 +64,13 @@ impl<const T: JoinType> HashJoinExecutor<T> {
             let chunk = chunk?;
             let keys_chunk = Evaluator::new(&self.right_keys).eval_list(&chunk)?;
             for (right_row, keys) in chunk.rows().zip(keys_chunk.rows()) {
-                if let Some(left_rows) = hash_map.get_mut(&keys.values().collect::<JoinKeys>()) {
+                let keys = keys.values().collect::<JoinKeys>();
+                // NULL is not equal to anything, not even to NULL: such a row has no match.
+                let matched = match has_null(&keys) {
+                    true => None,
+                    false => hash_map.get_mut(&keys),
+                };
+                if let Some(left_rows) = matched {
                     left_rows.matched = true;
                     for left_row in &left_rows.rows {
                         let values = left_row.iter().cloned().chain(right_row.values());
@@ -120,7 +131,11 @@ impl HashSemiJoinExecutor {
             let chunk = chunk?;
             let keys_chunk = Evaluator::new(&self.right_keys).eval_list(&chunk)?;
             for row in keys_chunk.rows() {
-                key_set.insert(row.values().collect());
+                let keys = row.values().collect::<JoinKeys>();
+                // a NULL key never matches
+                if !has_null(&keys) {
+                    key_set.insert(keys);
+                }
             }
             tokio::task::consume_budget().await;
         }
@@ -158,8 +173,13 @@ impl HashSemiJoinExecutor2 {
             let chunk = chunk?;
             let keys_chunk = Evaluator::new(&self.right_keys).eval_list(&chunk)?;
             for (key, row) in keys_chunk.rows().zip(chunk.rows()) {
+                let keys = key.values().collect::<JoinKeys>();
+                // a NULL key never matches
+                if has_null(&keys) {
+                    continue;
+                }
                 let chunk = key_set
-                    .entry(key.values().collect())
+                    .entry(keys)
                     .or_insert_with(|| DataChunkBuilder::unbounded(&self.right_types))
                     .push_row(row.values());
                 assert!(chunk.is_none());
